@@ -28,6 +28,7 @@ def main() -> int:
     ap.add_argument("--name", default="")
     ap.add_argument("--wt", default=None)
     ap.add_argument("--needs", default="")
+    ap.add_argument("--python", default="/venv/bin/python")
     args = ap.parse_args()
     pid = args.pid
     wt = args.wt or f"/tmp/seed/wt-{pid}"
@@ -42,7 +43,7 @@ def main() -> int:
     if demo is None:
         print("no demo file")
         return 2
-    runner = "/venv/bin/python -m pytest -q -p no:cacheprovider -x" if "def test_" in open(f"{wt}/{demo}").read() and "__main__" not in open(f"{wt}/{demo}").read() else "/venv/bin/python"
+    runner = f"{args.python} -m pytest -q -p no:cacheprovider -x" if "def test_" in open(f"{wt}/{demo}").read() and "__main__" not in open(f"{wt}/{demo}").read() else args.python
     # regenerate the patch from the worktree state
     rc, diff = sh("git diff -- packages src", wt)
     if not diff.strip():
